@@ -948,6 +948,33 @@ pub fn stress_shapes(thorough: bool) -> Vec<(String, Vec<u8>)> {
         b.extend(frame_bytes(&[chunk(tileset_chunk(&ts1, 6, &mut None)), simple_layer(0, LayerKind::Tilemap { tileset: 0 }, 1), chunk(cel_chunk(&cel, Some(6), &mut None)), chunk(tileset_chunk(&ts2, 6, &mut None))], 1));
         v.push((format!("tileset-redefined-after-its-tilemap-cel-{}", name), b));
     }
+    // a tileset id defined twice with every combination of "tiles embedded" / "external link only" / both, and a
+    // second tile count that is equal, smaller or larger: refused today (external tilesets are unsupported); where a
+    // reader accepts one, everything it exposes has to be usable
+    for (n1, f1) in [("embedded", 2u32), ("external", 1), ("both", 3)] {
+        for (n2, f2) in [("embedded", 2u32), ("external", 1), ("both", 3)] {
+            for count2 in [4u32, 1, 9] {
+                if f1 == 2 && f2 == 2 && count2 == 4 {
+                    continue;
+                }
+                let px = |f: u32, c: u32, v: u8| if f & 2 != 0 { vec![v; c as usize * 2 * 2 * 4] } else { vec![] };
+                let ts1 = Tileset { id: 0, flags: f1, count: 4, tw: 2, th: 2, base_index: 1, name: String::new(), ext: (1, 0), pixels: px(f1, 4, 31) };
+                let ts2 = Tileset { id: 0, flags: f2, count: count2, tw: 2, th: 2, base_index: 1, name: String::new(), ext: (1, 0), pixels: px(f2, count2, 77) };
+                let cel = Cel { layer: 0, x: 0, y: 0, opacity: 255, content: CelContent::Tilemap { w: 2, h: 2, bits: 32, masks: [0x1fffffff, 0x20000000, 0x40000000, 0x80000000], tiles: vec![0, 1, 2, 3] }, user_data: None };
+                let ext_bytes = chunk(ext_files_chunk(&[ExtFile { id: 1, name: "tiles.aseprite".to_string() }], &mut None));
+                for with_ext in [false, true] {
+                    let mut chunks = vec![];
+                    if with_ext {
+                        chunks.push(ext_bytes.clone());
+                    }
+                    chunks.extend([chunk(tileset_chunk(&ts1, 6, &mut None)), chunk(tileset_chunk(&ts2, 6, &mut None)), simple_layer(0, LayerKind::Tilemap { tileset: 0 }, 1), chunk(cel_chunk(&cel, Some(6), &mut None))]);
+                    let mut b = header_bytes(1, 4, 4, 32);
+                    b.extend(frame_bytes(&chunks, 1));
+                    v.push((format!("tileset-defined-twice-{}-then-{}-count{}{}", n1, n2, count2, if with_ext { "-with-external-files-chunk" } else { "" }), b));
+                }
+            }
+        }
+    }
     // degenerate tilesets and tilemaps: zero tiles, zero tile sizes, zero-sized maps, in combination
     for count in [0u32, 1] {
         for (tw, th) in [(0u16, 0u16), (0, 1), (1, 0), (1, 1)] {
